@@ -16,6 +16,8 @@ func checkC16(c *Ctx) {
 	c.rule("C16.a", "Transform returns ErrShortSrc when the input may continue and atEOF is false", 2)
 	c.rule("C16.b", "every write into dst follows a destination-space check returning ErrShortDst", 3)
 	c.rule("C16.c", "nSrc advances only after the destination-space check", 3)
+	c.rule("C16.d", "encoder and decoder agree on the self-representing interval [min, max]", 4)
+	rulePrintableInterval(c, "C16.d")
 	p := c.P
 	pk := p.Pkgs[modPath+"/internal/utf7"]
 	n := 0
@@ -178,4 +180,77 @@ func endsInReturn(b *ast.BlockStmt) bool {
 	}
 	_, ok := b.List[len(b.List)-1].(*ast.ReturnStmt)
 	return ok
+}
+
+// rulePrintableInterval: C16.d. Sibling agreement: the encoder decides which
+// bytes are written directly, the decoder which bytes are legal in ASCII mode
+// and which code points must not hide inside base64; all of them must use
+// the same closed interval [min, max]. Every comparison against the package
+// constants min and max is normalised to "x OP const"; for min only `<`
+// (outside) and `>=` (inside) denote the closed interval, for max only `>`
+// and `<=`.
+func rulePrintableInterval(c *Ctx, rule string) {
+	p := c.P
+	pk := p.Pkgs[modPath+"/internal/utf7"]
+	if pk == nil {
+		c.unresolvedRoot("internal/utf7")
+		return
+	}
+	lo, _ := pk.Types.Scope().Lookup("min").(*types.Const)
+	hi, _ := pk.Types.Scope().Lookup("max").(*types.Const)
+	if lo == nil || hi == nil {
+		c.unresolvedRoot("utf7.min / utf7.max")
+		return
+	}
+	for _, file := range pk.Syntax {
+		if strings.HasSuffix(p.Fset.Position(file.Pos()).Filename, "_test.go") {
+			continue
+		}
+		for _, d := range file.Decls {
+			fd, ok := d.(*ast.FuncDecl)
+			if !ok || fd.Body == nil {
+				continue
+			}
+			name := fd.Name.Name
+			if fd.Recv != nil && len(fd.Recv.List) == 1 {
+				name = strings.TrimPrefix(types.ExprString(fd.Recv.List[0].Type), "*") + "." + name
+			}
+			ast.Inspect(fd.Body, func(m ast.Node) bool {
+				be, ok := m.(*ast.BinaryExpr)
+				if !ok {
+					return true
+				}
+				which := func(e ast.Expr) *types.Const {
+					id, ok := ast.Unparen(e).(*ast.Ident)
+					if !ok {
+						return nil
+					}
+					k, _ := pk.TypesInfo.Uses[id].(*types.Const)
+					if k == lo || k == hi {
+						return k
+					}
+					return nil
+				}
+				op := be.Op
+				k := which(be.Y)
+				other := be.X
+				if k == nil {
+					if k = which(be.X); k == nil {
+						return true
+					}
+					other = be.Y
+					op = flipOp(op)
+				}
+				switch op {
+				case token.LSS, token.LEQ, token.GTR, token.GEQ:
+				default:
+					return true
+				}
+				key := fmt.Sprintf("%s: %s %s %s#%d", name, types.ExprString(other), op, k.Name(), countKey(c, rule, fmt.Sprintf("%s: %s %s %s#", name, types.ExprString(other), op, k.Name()))+1)
+				good := (k == lo && (op == token.LSS || op == token.GEQ)) || (k == hi && (op == token.GTR || op == token.LEQ))
+				c.check(good, rule, key, be.Pos(), "closed interval end", fmt.Sprintf("this comparison treats %s as excluded from the self-representing interval while the sibling predicates include it: encoder and decoder disagree on one boundary code point (e.g. U+0020 hidden in base64 is accepted)", k.Name()))
+				return true
+			})
+		}
+	}
 }
